@@ -1,7 +1,8 @@
 (* C14 - Two-column layout is the aligned juxtaposition of two wrapped texts. *)
 From Coq Require Import List Bool ZArith Lia.
 Import ListNotations.
-From Rosed Require Import Model.Ops Proofs.C14P.
+From Rosed Require Import Base.Res Base.ListX Base.Utf8 Gem.Segment Gem.GString Model.Tb Model.Manip Model.Table Model.Options Model.Editor Model.Ops
+     Proofs.SeamP Proofs.C13P Proofs.C14P Proofs.C15P Proofs.C14Q.
 Open Scope Z_scope.
 
 (* both columns are at least 2 wide and lw + gap + rw is the minimum-clamped total
@@ -26,3 +27,29 @@ Theorem C14_unclamped : forall width gap m ex,
   two_col_widths width gap m ex = (W, fmul_trunc (W - gap) m ex, (W - gap) - fmul_trunc (W - gap) m ex).
 Proof. exact two_col_widths_unclamped. Qed.
 Print Assumptions C14_unclamped.
+
+(* the layout as a whole: what InsertTwoColumns inserts is, row by row, the k-th wrapped left
+   line, spaces up to cluster offset lw + gap, and the k-th wrapped right line, for
+   max(left, right) rows, joined by the line separator, with a trailing separator exactly when
+   trailing separators are on (row_of is that row; missing lines are empty) *)
+Theorem C14_layout : forall (C : Classifier) (K : ClassifierOk) (U : Upper) pos lt rt gap width m ex opts e lb rb ct,
+  let '(W, lw, rw) := two_col_widths width gap m ex in
+  let o := with_defaults opts in
+  let sep := decode (o_linesep o) in
+  (lt <> [] \/ rt <> []) -> 0 <= gap ->
+  collapse_space (decode lt) sep = Ok ct -> all_safe ct ->
+  wrap (decode lt) lw sep = Ok lb -> wrap (decode rt) rw sep = Ok rb ->
+  insert_two_columns_opts pos lt rt gap width m ex opts e =
+    insert pos (encode (tb_join {| b_lines := map (row_of (b_lines lb) (b_lines rb) (lw + gap))
+                                                 (seq 0 (Nat.max (length (b_lines lb)) (length (b_lines rb))));
+                                   b_sep := sep; b_trailing := negb (o_notrailing o) |})) e.
+Proof. intros C K U. exact two_columns_layout_safe. Qed.
+Print Assumptions C14_layout.
+
+(* the right column starts at the same cluster offset on every row *)
+Theorem C14_right_column_offset : forall (C : Classifier) (K : ClassifierOk) (left : list gstr) lw gap k, 0 <= gap ->
+  let l := match nth_error left k with Some x => x | None => [] end in
+  ends_ok l -> glen l <= lw ->
+  glen (l ++ repeat SP (Z.to_nat (lw + gap - glen l))) = lw + gap.
+Proof. intros C K. exact two_columns_offset. Qed.
+Print Assumptions C14_right_column_offset.
